@@ -421,6 +421,44 @@ func init() {
 			}
 			return res
 		},
+		"bytes.Join": func(e *Exec, st *State, f *ssa.Function, args []Value, pos token.Pos) Value {
+			// the concatenation of a known number of parts with the separator
+			// between them, in fresh memory; otherwise an arbitrary fresh slice
+			c := e.C
+			parts, ok := args[0].(*SliceV)
+			sep, ok2 := args[1].(*SliceV)
+			el := types.Typ[types.Byte]
+			fresh := func(sq *SeqV) Value {
+				o := e.newLocal(mkRegionType(el), "bytes.Join")
+				st.mem[o] = &ArrV{Elem: el, N: -1, Read: func(i *smt.Term) Value { return Scalar{T: sq.Read(i), Typ: el} }}
+				return &SliceV{Elem: el, Len: sq.Len, Cap: sq.Len, Alts: []SliceAlt{{Cond: c.True(), Loc: &Loc{Obj: o}, Off: bv64(c, 0)}}}
+			}
+			if ok && ok2 && parts.Len.Op == "bv" && parts.Len.Val <= 8 {
+				n := int(parts.Len.Val)
+				var seqs []*SeqV
+				for i := 0; i < n; i++ {
+					pv, isS := e.readSlice(st, parts, c.BVC(uint64(i), 64)).(*SliceV)
+					if !isS {
+						seqs = nil
+						break
+					}
+					if i > 0 {
+						seqs = append(seqs, e.sliceSeq(st, sep))
+					}
+					seqs = append(seqs, e.sliceSeq(st, pv))
+				}
+				if seqs != nil || n == 0 {
+					if n == 0 {
+						return fresh(&SeqV{W: 8, Len: bv64(c, 0), Read: func(i *smt.Term) *smt.Term { return c.BVC(0, 8) }})
+					}
+					return fresh(catSeq(c, seqs))
+				}
+			}
+			ln := c.Fresh("join_len", smt.BV(64))
+			e.addAxioms(c.BVSle(bv64(c, 0), ln), c.BVSle(ln, c.BVC(maxLen, 64)))
+			fn := c.FreshName("join_arr")
+			return fresh(&SeqV{W: 8, Len: ln, Read: func(i *smt.Term) *smt.Term { return c.App(fn, smt.BV(8), i) }})
+		},
 		"reflect.DeepEqual": func(e *Exec, st *State, f *ssa.Function, args []Value, pos token.Pos) Value {
 			// DeepEqual(x, T{}) with x read from memory is the (uninterpreted)
 			// zero-value test of x; anything else is an unconstrained boolean
@@ -443,6 +481,29 @@ func init() {
 				}
 			}
 			return Scalar{T: e.C.Fresh("deepequal", smt.Bool), Typ: boolTyp}
+		},
+		"crypto/sha512.Sum384": func(e *Exec, st *State, f *ssa.Function, args []Value, pos token.Pos) Value {
+			c := e.C
+			in := e.seqTerm(st, e.sliceSeq(st, args[0].(*SliceV)))
+			h := c.App("spec_SHA384", sortByteSeq, in)
+			e.addAxioms(c.Eq(c.App("seq_len", smt.BV(64), h), bv64(c, 48)))
+			el := types.Typ[types.Uint8]
+			return &ArrV{Elem: el, N: 48, Read: func(i *smt.Term) Value {
+				return Scalar{T: c.App("seq_at8", smt.BV(8), h, i), Typ: el}
+			}}
+		},
+		"bytes.Clone": func(e *Exec, st *State, f *ssa.Function, args []Value, pos token.Pos) Value {
+			// nil stays nil; otherwise a copy in fresh memory
+			c := e.C
+			in := args[0].(*SliceV)
+			sq := e.sliceSeq(st, in)
+			el := in.Elem
+			o := e.newLocal(mkRegionType(el), "bytes.Clone")
+			st.mem[o] = &ArrV{Elem: el, N: -1, Read: func(i *smt.Term) Value { return Scalar{T: sq.Read(i), Typ: el} }}
+			capT := c.Fresh("clonecap", smt.BV(64))
+			e.addAxioms(c.BVSle(sq.Len, capT), c.BVSle(capT, c.BVC(maxLen, 64)))
+			isNil := e.sliceNil(in)
+			return &SliceV{Elem: el, Len: sq.Len, Cap: c.Ite(isNil, bv64(c, 0), capT), Alts: []SliceAlt{{Cond: isNil}, {Cond: c.Not(isNil), Loc: &Loc{Obj: o}, Off: bv64(c, 0)}}}
 		},
 		"crypto/sha256.Sum256": func(e *Exec, st *State, f *ssa.Function, args []Value, pos token.Pos) Value {
 			c := e.C
